@@ -419,7 +419,7 @@ def read_bam(path, tagged):
                 g = lambda k: str(t[k]) if k in t else ''
                 cx = g('CX')
                 e.update(cx=int(cx) if cx.isdigit() else -1, SM=g('SM'), RX=chars(g('RX')), BC=chars(g('BC')), bcr=chars(g('bc')),
-                         LY=g('LY'), La=g('La'), Fc=g('Fc'), MX=g('MX'), MI=g('MI'), aa=g('aa'), aA=g('aA'), hasDS='DS' in t,
+                         LY=g('LY'), La=g('La'), Fc=g('Fc'), MX=g('MX'), MI=g('MI'), aa=g('aa'), aA=g('aA'), RG=g('RG'), hasDS='DS' in t,
                          DS=int(t['DS']) if isinstance(t.get('DS'), int) else -1,
                          hasRS='RS' in t, RS=int(t['RS']) if isinstance(t.get('RS'), int) else -1, RR=g('RR'), bi=g('bi'))
             else:
